@@ -21,7 +21,7 @@ ASSUMPTIONS = [
 ]
 REQUIRED = {t: ['est:hh2', 'est:hierarchical', 'est:prolongate', 'path:serial', 'path:pool', 'density:random', 'density:galerkin',
                 'data:initial', 'data:dirichlet', 'data:both', 'hh2:vanishes', 'curve:UnitSquare', 'curve:PiSquare', 'curve:LShape', 'curve:Circle',
-                'prolongate:identity', 'prolongate:nested', 'prolongate:same-partition-other-order', 'history:second-call-other-list']
+                'prolongate:identity', 'prolongate:nested', 'prolongate:same-partition-other-order', 'history:second-call-other-list', 'history:same-length-other-order']
             for t in ('quick', 'thorough')}
 TIMEOUT = {'quick': 1800, 'thorough': 9000}
 CURVES = ['UnitSquare', 'PiSquare', 'LShape', 'Circle']
@@ -235,12 +235,22 @@ def run_est(spec, acc):
     # ---- a second, different call in the same process (the estimators publish their lists to pool workers through module globals):
     # a sub-list of the elements with another density; the definition is recomputed from the corresponding sub-blocks
     if N >= 6:
+        # next call: all elements again, in another order - a list of the SAME length as the one before (state kept per operator or per
+        # process and keyed by the length of the list would not be refreshed)
+        perm = list(range(N))
+        rng.shuffle(perm)
+        pos = {c: i for i, c in enumerate(perm)}
+        fperm = sorted(range(nf), key=lambda k: (pos[parent_of[k]], k))
+        run_calls([elems[c] for c in perm], N, [fine[k] for k in fperm], nf, [pos[parent_of[k]] for k in fperm],
+                  A[np.ix_(fperm, fperm)], B[np.ix_(fperm, perm)], rhs[fperm], [('random-on-permuted-list', np.array([rng.uniform(-1, 1) for _ in perm]))],
+                  dict(wit0, call='second call in the process, all elements in another order'), 'second-permuted')
+        acc.seen('history:same-length-other-order')
         sel = sorted(rng.sample(range(N), N - max(2, N // 3)))
         pos = {c: i for i, c in enumerate(sel)}
         fsel = [k for k in range(nf) if parent_of[k] in pos]
         run_calls([elems[c] for c in sel], len(sel), [fine[k] for k in fsel], len(fsel), [pos[parent_of[k]] for k in fsel],
                   A[np.ix_(fsel, fsel)], B[np.ix_(fsel, sel)], rhs[fsel], [('random-on-sublist', np.array([rng.uniform(-1, 1) for _ in sel]))],
-                  dict(wit0, call='second call in the process, on a sub-list of %d of the %d elements' % (len(sel), N)), 'second')
+                  dict(wit0, call='third call in the process, on a sub-list of %d of the %d elements' % (len(sel), N)), 'second')
         acc.seen('history:second-call-other-list')
     # ---- h-h/2 vanishes when the extension solves the fine problem
     Phi = np.array([rng.uniform(-1, 1) for _ in range(N)])
